@@ -17,7 +17,8 @@ CONSTANTS
   Markers <- MCMarkers
 INIT Init
 NEXT Next
-VIEW View
+VIEW noopView
+CONSTRAINT NoopBound1
 ACTION_CONSTRAINT Edge
 INVARIANTS TypeOK RefinesA ReadsOK MergeLaws DupNoop StaleNoop ValidateOpOK ValidateMergeOK ValidateMergeSym ResetLaws
 PROPERTY Monotone
